@@ -39,6 +39,78 @@ class AttrMapTok(Model):
     def __repr__(self):
         return 'Attrs(%s)' % self.tok
 
+    # iteration: the entries of an opaque map are functions of its token (stated bound: at most ATTR_SLOTS entries are looked at)
+    def entries(self, ip):
+        from models_str import StrTok
+        ip.path.assume(self.count() <= ATTR_SLOTS)
+        return [(StrTok(_attr_key(self.tok, i)), StrTok(_attr_val(self.tok, i))) for i in range(ATTR_SLOTS)]
+
+    def iter_window(self, mode):
+        raise Unsupported('iteration over an attribute map needs the path (use as_window)')
+
+    def into_iter(self, ip):
+        from models_coll import Seq, Window
+        ents = self.entries(ip)
+        seq = Seq([Agg(None, [Ref(Loc(Cell(k, 'attr-key'))), Ref(Loc(Cell(v, 'attr-val')))]) for k, v in ents], self.count(), 'vec')
+        return Window(seq, 0, seq.n)
+
+
+ATTR_SLOTS = 2
+_attr_key = z3.Function('attr_key', z3.IntSort(), z3.IntSort(), z3.IntSort())
+_attr_val = z3.Function('attr_val', z3.IntSort(), z3.IntSort(), z3.IntSort())
+_attrs_from = z3.Function('attrs_from', *([z3.IntSort()] * (2 * ATTR_SLOTS + 2)))
+
+
+def attrs_collect(ip, pairs_seq):
+    """HashMap<String, String> collected from a sequence of (key, value) string tokens: a function of the entries; collecting all
+    entries of a map `a` in its iteration order gives `a` again"""
+    from models_str import StrTok
+    from models_core import deref_all
+    if len(pairs_seq.elems) > ATTR_SLOTS:
+        raise Unsupported('attribute map with more than %d collected entries' % ATTR_SLOTS)
+    ks, vs = [], []
+    for e in pairs_seq.elems:
+        k, v = deref_all(e.fields[0]), deref_all(e.fields[1])
+        if not (isinstance(k, StrTok) and isinstance(v, StrTok)):
+            raise Unsupported('attribute entries that are not opaque strings')
+        ks.append(k.tok)
+        vs.append(v.tok)
+    while len(ks) < ATTR_SLOTS:
+        ks.append(z3.IntVal(0))
+        vs.append(z3.IntVal(0))
+    n = pairs_seq.n
+    args = []
+    for i in range(ATTR_SLOTS):
+        args += [z3.If(n > i, ks[i], 0), z3.If(n > i, vs[i], 0)]
+    tok = z3.If(n == 0, 0, _attrs_from(*(args + [n])))
+    # identity instances: for every map token mentioned in the entries, collecting exactly its entries gives it back
+    seen = set()
+    for t in ks + vs:
+        for sub in _subterms(t):
+            if sub.decl().name() in ('attr_key', 'attr_val'):
+                a = sub.arg(0)
+                if a.get_id() in seen:
+                    continue
+                seen.add(a.get_id())
+                am = AttrMapTok(a)
+                full = []
+                for i in range(ATTR_SLOTS):
+                    full += [z3.If(am.count() > i, _attr_key(a, i), 0), z3.If(am.count() > i, _attr_val(a, i), 0)]
+                ip.path.assume(z3.Implies(a != 0, _attrs_from(*(full + [am.count()])) == a))
+    r = AttrMapTok(tok)
+    ip.path.assume(z3.Implies(tok != 0, _attr_len(tok) == n))
+    return r
+
+
+def _subterms(t):
+    out, todo = [], [t]
+    while todo:
+        x = todo.pop()
+        if z3.is_app(x):
+            out.append(x)
+            todo += list(x.children())
+    return out
+
 
 class NeBytes(Model):
     """[u8; 8] holding the native-endian bytes of a usize"""
